@@ -227,6 +227,15 @@ class Pki:
                 self.certs[bytes(Name.to_bytes(cname))] = bytes(cwire)
                 self.names[label] = [bytes(c) for c in cname]
                 self.keys[label] = kspec
+                if sc.get('self_issued'):
+                    # a second certificate of the same key, issued with that key itself and naming the CA-issued one
+                    # (a renewed / self-issued certificate): packet <- N <- M <- ... <- anchor is a chain like any other
+                    nname = [bytes(c) for c in cname[:-2]] + [bytes(enc.Component.from_str('self')), bytes(cname[-1])]
+                    nwire = enc.make_data(nname, enc.MetaInfo(content_type=enc.ContentType.KEY, freshness_period=3600000),
+                                          pub, signer=mk_signer(kspec, self.names[label]))
+                    self.certs[bytes(Name.to_bytes(nname))] = bytes(nwire)
+                    self.names[label + '~self'] = nname
+                    self.keys[label + '~self'] = kspec
             parent = f'{lvl}:{members[0]}'
         self.last_level = LEVELS[depth][-1] if LEVELS[depth] else None
 
@@ -245,7 +254,7 @@ class Pki:
         elif sb == 'digest':
             signer = sec.DigestSha256Signer()
         else:
-            locator = self.names[sb]
+            locator = self.names[sb + '~self'] if spec.get('self_issued') and (sb + '~self') in self.names else self.names[sb]
             if spec.get('alt_locator'):
                 # another certificate name of the same key (other issuer id) that nobody serves
                 locator = list(self.names[sb][:-2]) + [bytes(enc.Component.from_str('alt')), self.names[sb][-1]]
@@ -563,7 +572,7 @@ class ChainWorld(World):
             self.close()
 
     # ---- oracle: independent chain walker -------------------------------------------------------
-    def walk(self, wire, anchor_wire, store, policy, strict_retrieval, depth=0):
+    def walk(self, wire, anchor_wire, store, policy, strict_retrieval, depth=0, schema=True):
         """-> True / False.  strict_retrieval=False: pretend every stored certificate can be fetched (upper bound)."""
         if depth > 8:
             return False
@@ -575,7 +584,7 @@ class ChainWorld(World):
         if not kl or p.sig_info is None or p.sig_value is None:
             return False
         name = [bytes(c) for c in p.name]
-        if not ref_signing_check(self.schema_id, name, [bytes(c) for c in kl]):
+        if schema and not ref_signing_check(self.schema_id, name, [bytes(c) for c in kl]):
             return False                    # independent reading of the schema, not the library's Checker
         si = tlvref.elements(p.sig_info)
         st = tlvref.find(si, tlvref.T_SIG_TYPE)
@@ -592,7 +601,7 @@ class ChainWorld(World):
         cert = store.get(key)
         if cert is None:
             return False
-        if not self.walk(cert, anchor_wire, store, policy, strict_retrieval, depth + 1):
+        if not self.walk(cert, anchor_wire, store, policy, strict_retrieval, depth + 1, schema):
             return False
         c = tlvref.parse_data(cert)
         return verify_sig(c.content, styp, p.signed_portion, p.sig_value)
@@ -643,11 +652,13 @@ class ChainWorld(World):
             if e['out'] == 'error':
                 self.violate('C14', 'validator-raised', comp, e.get('where', '?'), f'validation {e["vid"]} raised {e.get("exc")}')
                 continue
-            if iop.get('bare'):
-                continue            # a bare CascadeChecker has no schema: only "no internal error" is judged
+            # (a bare CascadeChecker is the same validator without a schema: every link is allowed, the rest of the statement applies)
+            schema = not iop.get('bare')
+            if not schema and (iop.get('anchor_is') or iop.get('anchor_forged')):
+                continue
             anchor_wire = self.pki.certs[self.label_name(iop.get('anchor', 'root'))]
-            upper = self.walk(e['wire'], anchor_wire, e['store'], e['policy'], strict_retrieval=False)
-            exact = self.walk(e['wire'], anchor_wire, e['store'], e['policy'], strict_retrieval=True)
+            upper = self.walk(e['wire'], anchor_wire, e['store'], e['policy'], strict_retrieval=False, schema=schema)
+            exact = self.walk(e['wire'], anchor_wire, e['store'], e['policy'], strict_retrieval=True, schema=schema)
             got = e['out'] is True
             desc = f'validation {e["vid"]} by instance {e["iid"]} (anchor {iop.get("anchor", "root")}, deviation ' \
                    f'{self.scenario.get("deviation")}, forged packet field {[o.get("forge") for o in self.scenario["ops"] if o.get("vid") == e["vid"]]})'
@@ -812,6 +823,15 @@ def generate(rng, seed, tier='quick'):
             v['forge'] = rng.choice(['content', 'sigvalue'])
         fetch_delay = 5000
         ops.append({'at': v['at'] + rng.choice([1, 2500, 4999, 7500]), 'op': 'facedown'})
+    if rng.random() < 0.1 and depth >= 1:
+        # every key below the anchor also has a certificate issued with that key itself; some packets name it
+        extra['self_issued'] = True
+        for o in ops:
+            if o['op'] == 'validate' and 'signed_by' not in o['packet'] and not o['packet'].get('alt_locator') and rng.random() < 0.6:
+                o['packet']['self_issued'] = True
+        for o in ops:
+            if o['op'] == 'instance' and rng.random() < 0.5 and not o.get('anchor_is') and not o.get('anchor_forged'):
+                o['bare'] = True
     if not two_roots and depth in (2, 3) and rng.random() < 0.25:
         extra['schema'] = f'{depth}c'        # a component constraint on the signing key's rule
     elif not two_roots and depth == 2 and rng.random() < 0.2:
